@@ -448,6 +448,22 @@ def r48(ctx, repo):
                 man.data[0] = False
                 excl[op[1]].add(ids[0])
                 continue
+            if kind == "X":
+                # the user evaluates the root filter directly and then tries
+                # to set B's exclusions: the call is refused (the child is
+                # not synchronised) and must leave no trace
+                before = list(all_of(root))
+                root.apply_filter()
+                if list(all_of(root)) == before:
+                    continue      # nothing changed: the call is legitimate
+                flt = flt_of(b)
+                res = L.run(lambda: L.lookup_attr(
+                    it, flt, "apply_manual_indices", None)(b, list(op[1])))
+                if res[0] != "raise":
+                    return done, ("apply_manual_indices on the "
+                                  "unsynchronised child is not refused: "
+                                  f"{res[0]} {res[1]}")
+                continue
             if kind == "F":
                 L.lookup_attr(it, b, "rejuvenate", None)()
             elif kind == "T":
@@ -481,6 +497,9 @@ def r48(ctx, repo):
         names = {"R": lambda o: f"root filter excludes {sorted(o[1])}",
                  "m": lambda o: f"{o[1]}.filter.manual[0]=False",
                  "F": lambda o: "B.rejuvenate()",
+                 "X": lambda o: (f"root.apply_filter(); B.filter."
+                                 f"apply_manual_indices(B, {list(o[1])}) "
+                                 f"-> refused"),
                  "T": lambda o: "set_temporary_feature(B, …)"}
         return "; ".join(names[o[0]](o) for o in ops)
 
@@ -497,6 +516,11 @@ def r48(ctx, repo):
                 hist_f.append([r, ("F",), m, ("F",), R(), ("F",)])
                 hist_t.append([m, ("T",), r, ("F",), R(), ("F",)])
     hist_f.append([("m", "A"), ("m", "B"), ("F",), everything, ("F",), R(),
+                   ("F",)])
+    # a refused call in the middle of a history
+    hist_f.append([("m", "B"), ("F",), R(1), ("X", (2,)), ("F",), R(),
+                   ("F",)])
+    hist_f.append([("m", "B"), ("F",), R(0), ("X", (1, 2)), ("F",), R(),
                    ("F",)])
     if ctx.tier == "thorough":
         edits = [("m", "B"), ("m", "A"), R(0), R(1), everything, R()]
@@ -1113,6 +1137,39 @@ def r42(ctx, repo):
     if "ChildScalar" not in stateful:
         raise AnalysisError("events.py: memo state of ChildScalar not "
                             "recognised")
+    # a memo is computed once and handed out for every later call: its
+    # value must not depend on the arguments of the call that filled it
+    for cname, c in list(ecls.items()) + [("RTDC_Hierarchy", cls)]:
+        for x, items in memo_attrs(c).items():
+            for mfn, kind, val in items:
+                if kind != "lazy":
+                    continue
+                a_ = mfn.args
+                margs = {p_.arg for p_ in a_.args[1:] + a_.kwonlyargs}
+                if a_.vararg:
+                    margs.add(a_.vararg.arg)
+                if a_.kwarg:
+                    margs.add(a_.kwarg.arg)
+                # locals derived from arguments
+                derived = set(margs)
+                for _ in range(3):
+                    for st_ in walk(mfn):
+                        if isinstance(st_, ast.Assign) and names_in(
+                                st_.value) & derived:
+                            for t_ in st_.targets:
+                                if isinstance(t_, ast.Name):
+                                    derived.add(t_.id)
+                used = sorted(names_in(val) & derived)
+                rel_ = EVENTS if cname in ecls else BASE
+                ctx.ob("R4.2", not used,
+                       f"the memoised value of `{x}` does not depend on the "
+                       f"arguments of {mfn.name}()" if not used else
+                       f"`{x}` is memoised from `{short(val, 50)}`, which "
+                       f"depends on the argument(s) {used} of the call that "
+                       f"happens to come first: every later caller (and the "
+                       f"child's feature data) gets that conversion",
+                       node=mfn, key=f"{rel_}::{cname}.{mfn.name}::memo {x} "
+                       f"independent of call arguments")
     child_names = {n for n in ecls if n.startswith("Child")}
     n_sites = 0
     for rel in repo.files("dclab/"):
@@ -2612,4 +2669,41 @@ MUTANTS = list(MUTANTS) + [
          "        hparent.apply_filter(*args, **kwargs)\n"
          "        # Update configuration\n        self._update_config()", 1),
      "R4.1"),
+]
+
+# round-5 seeded changes (/verif/seeded/C04_13, C04_14)
+MUTANTS = list(MUTANTS) + [
+    ("ChildScalar caches the dtype-converted array of the first caller "
+     "(seeded)", EVENTS,
+     ("            self._array = hparent[self.feat][filt_arr]\n",
+      "            self._array = np.asarray(hparent[self.feat][filt_arr],\n"
+      "                                     dtype=dtype)\n"), "R4.2"),
+    ("refused apply_manual_indices still replaces the stored indices "
+     "(seeded)", HFILT,
+     [("        if self.parent_changed:\n            msg = ",
+       "        self._man_root_ids = list(manual_indices)\n"
+       "        if self.parent_changed:\n            msg = "),
+      ("        else:\n            self._man_root_ids = list(manual_indices)\n"
+       "            cidx",
+       "        else:\n            cidx")], "R4.8"),
+]
+
+TWINS = list(TWINS) + [
+    ("apply_manual_indices with an early raise instead of if/else", HFILT,
+     lambda s: s.replace(
+         "            raise HierarchyFilterError(msg)\n"
+         "        else:\n"
+         "            self._man_root_ids = list(manual_indices)\n"
+         "            cidx = map_indices_root2child(child=rtdc_ds,\n"
+         "                                          root_indices="
+         "manual_indices)\n"
+         "            if len(cidx):\n"
+         "                self.manual[cidx] = False\n",
+         "            raise HierarchyFilterError(msg)\n"
+         "        self._man_root_ids = list(manual_indices)\n"
+         "        cidx = map_indices_root2child(child=rtdc_ds,\n"
+         "                                      root_indices=manual_indices)"
+         "\n"
+         "        if len(cidx):\n"
+         "            self.manual[cidx] = False\n")),
 ]
